@@ -106,3 +106,47 @@ def orphan_child(holder, conn, store):
     except Exception as exc:
         conn.send('error %s: %s' % (type(exc).__name__, str(exc)[:200]))
     conn.close()
+
+
+# ---- forked by the thread that HOLDS the object's lock: the child's locked updates must wait for the parent
+def incr_all(obj):
+    """one read-modify-write of the whole object (every element of an array), no locking here"""
+    import ctypes
+    raw = obj.get_obj() if hasattr(obj, 'get_obj') else obj
+    if isinstance(raw, ctypes.Array):
+        for j in range(len(raw)):
+            raw[j] += 1
+    else:
+        raw.value += 1
+
+
+def forklock_child(obj, lock, idx, n, wfd, through_wrapper):
+    """first: what this process's copy of the lock says and one NON-blocking attempt (reported at once, the parent is
+    still inside its `with lock:`); then n locked updates `with lock: obj.value += 1`"""
+    import json
+    import os
+    import time
+
+    def emit(rec):
+        os.write(wfd, (json.dumps(rec) + '\n').encode())
+    try:
+        lk = obj.get_lock() if lock is None else lock
+        sl = lk._semlock
+        rec = dict(id=idx, ev='tried', count=sl._count(), is_mine=bool(sl._is_mine()))
+        got = lk.acquire(False)
+        rec['got'] = bool(got)
+        if got:
+            lk.release()
+        emit(rec)
+        first = None
+        for _ in range(n):
+            with lk:
+                if first is None:
+                    first = time.monotonic()
+                if through_wrapper:
+                    obj.value += 1          # the generated, lock-wrapped accessors (recursive lock)
+                else:
+                    incr_all(obj)
+        emit(dict(id=idx, ev='done', first_update=first, updates=n))
+    except BaseException as exc:          # noqa  (reported; the process exits through Popen._launch)
+        emit(dict(id=idx, ev='done', error='%s: %s' % (type(exc).__name__, str(exc)[:200])))
